@@ -199,6 +199,51 @@ func (a Tuple) M__ne__(other Object) (Object, error) {
 	return False, nil
 }
 
+// Orders two sequences of items lexicographically the way
+// tuplerichcompare and list_richcompare do: the first pair of items
+// which isn't equal decides using cmp (Lt, Le, Gt or Ge), if there is
+// no such pair the lengths decide using cmpLen
+func orderItems(a, b []Object, cmp func(x, y Object) (Object, error), cmpLen func(m, n int) bool) (Object, error) {
+	for i := 0; i < len(a) && i < len(b); i++ {
+		eq, err := Eq(a[i], b[i])
+		if err != nil {
+			return nil, err
+		}
+		if eq == False {
+			return cmp(a[i], b[i])
+		}
+	}
+	return NewBool(cmpLen(len(a), len(b))), nil
+}
+
+func (a Tuple) M__lt__(other Object) (Object, error) {
+	if b, ok := other.(Tuple); ok {
+		return orderItems(a, b, Lt, func(m, n int) bool { return m < n })
+	}
+	return NotImplemented, nil
+}
+
+func (a Tuple) M__le__(other Object) (Object, error) {
+	if b, ok := other.(Tuple); ok {
+		return orderItems(a, b, Le, func(m, n int) bool { return m <= n })
+	}
+	return NotImplemented, nil
+}
+
+func (a Tuple) M__gt__(other Object) (Object, error) {
+	if b, ok := other.(Tuple); ok {
+		return orderItems(a, b, Gt, func(m, n int) bool { return m > n })
+	}
+	return NotImplemented, nil
+}
+
+func (a Tuple) M__ge__(other Object) (Object, error) {
+	if b, ok := other.(Tuple); ok {
+		return orderItems(a, b, Ge, func(m, n int) bool { return m >= n })
+	}
+	return NotImplemented, nil
+}
+
 // Check interface is satisfied
 var _ sequenceArithmetic = Tuple(nil)
 var _ I__str__ = Tuple(nil)
@@ -210,4 +255,4 @@ var _ I__getitem__ = Tuple(nil)
 var _ I__eq__ = Tuple(nil)
 var _ I__ne__ = Tuple(nil)
 
-// var _ richComparison = Tuple(nil)
+var _ richComparison = Tuple(nil)
